@@ -92,6 +92,28 @@ Section Ext.
     apply Rmult_integral_contrapositive_currified; assumption.
   Qed.
 
+  (* ---------------------------------------------------------------- validity check and NaN (fix 837a912) *)
+  (* a NaN value is out of range for every binning: it is rejected by
+     assert_is_valid_for_trial_data and never reaches the lookup *)
+  Theorem nan_rejected lo up : bin_oor_n X XNaN lo up = true.
+  Proof. unfold bin_oor_n, X. destruct lo, up; reflexivity. Qed.
+
+  Theorem inf_rejected lo up :
+    bin_oor_n X PInf (Fin lo) (Fin up) = true /\ bin_oor_n X NInf (Fin lo) (Fin up) = true.
+  Proof.
+    unfold bin_oor_n, X. cbn [nleb XNum xleb xltb xeqb orb]. split; [|reflexivity].
+    destruct (true && false) eqn:E; [discriminate E | reflexivity].
+  Qed.
+
+  Theorem fin_range x lo up :
+    bin_oor_n X (Fin x) (Fin lo) (Fin up) = negb (Rleb lo x && Rleb x up).
+  Proof. reflexivity. Qed.
+
+  (* the check as it was before the repair accepted NaN *)
+  Lemma nan_accepted_before lo up :
+    orb (nltb X XNaN (Fin lo)) (nltb X (Fin up) XNaN) = false.
+  Proof. reflexivity. Qed.
+
   (* ---------------------------------------------------------------- witnesses: the guards are needed *)
   (* a zero-width box inside the on-time: S = 0 and the on-time event at the box gets +inf *)
   Lemma S_zero_witness :
